@@ -467,6 +467,13 @@ def c16(obj, kind, case, cfg, rec):
             hist = obj._history.get(f, [])
             recs_ = [x for x in hist if 'combination' in x]
             rec('C16:history#post.holds_raw_distribution_and_tested_combinations', len(recs_) >= 2 and recs_[0].get('viability') is None, 'feature %s: %d records' % (f, len(recs_)), dict(feature=f))
+            if recs_:
+                # the raw distribution is the distribution over ALL base modalities: the missing values of the training column are one of them, every observed category is listed
+                flat0 = [v for g in recs_[0]['combination'] for v in g]; raw_col = case['X'][ob.raw_feature_of(obj, f)]
+                miss = []
+                if raw_col.isna().any() and obj.str_nan not in flat0: miss.append(obj.str_nan)
+                if f in obj.qualitative_features: miss += [v for v in pd.unique(raw_col.dropna()) if S(v) not in [S(u) for u in flat0] and ob.group_of(obj, f, v) is not None][:3]
+                rec('C16:history#post.raw_distribution_lists_every_base_modality', not miss, 'feature %s: raw distribution %r lacks %r' % (f, recs_[0]['combination'], miss), dict(feature=f))
             viable = [x for x in recs_ if x.get('viability') is True]
             if not viable:
                 rec('C16:history#post.last_viable_is_fitted_grouping', False, 'kept feature %s has no combination flagged viable' % f, dict(feature=f)); continue
